@@ -18,7 +18,7 @@ use crate::engine::{idx, Case, Ctx, Sm64};
 use crate::gen::shard::{materialize, mh, serialize, shard_spec, ShardModel, ShardSpec, K};
 use crate::refs::merkle::{self as rm, H};
 
-pub const RULE: &str = "export stream: generated shard contents x key (random, or the zero key meaning unkeyed) x the 8 include-flag combinations x validity, through MDBShardInfo::export_as_keyed_shard, its streaming variant and MDBShardFile::export_as_keyed_shard; oracle = field-wise model of the export (xorb headers and kept file records unchanged, every chunk hash = keyed-BLAKE3(key, original) by an independent HMAC, no chunk entry or chunk-table key equal to an original value, tables present iff requested and equal to the recomputed sorted tables, footer key / creation <= expiry = creation + validity, totals). manager stream: a shard manager over the original shard and one over each export (1-3 keys in one directory, with and without tables) must return identical answers to generated unkeyed queries (universes with pairwise distinct chunk hashes so that the answer is unique). expiry stream: footers with expiry in {0, far past .. now-100 s, now+100 s .. far future, MAX-1, MAX} x grace in {0, 50 s, 10^6 s, MAX}: loaded iff now <= expiry, deleted iff expiry + grace (saturating) <= now, export_with_expiration keeps content and sets expiry. non-trivial = non-zero key with file info kept but no lookup tables, or a directory with >= 2 keys answering >= 1 positive query, or an expiry case (past expiry) that is not loaded; distinct by fingerprint of the generated case";
+pub const RULE: &str = "export stream: generated shard contents x key (random, or the zero key meaning unkeyed) x the 8 include-flag combinations x validity, through MDBShardInfo::export_as_keyed_shard, its streaming variant and MDBShardFile::export_as_keyed_shard; oracle = field-wise model of the export (xorb headers and kept file records unchanged, every chunk hash = keyed-BLAKE3(key, original) by an independent HMAC, no chunk entry or chunk-table key equal to an original value, tables present iff requested and equal to the recomputed sorted tables, footer key / creation <= expiry = creation + validity, totals). manager stream: a shard manager over the original shard and one over each export (1-3 keys in one directory, with and without tables) must return identical answers to generated unkeyed queries (universes with pairwise distinct chunk hashes so that the answer is unique). expiry stream: footers with expiry in {0, far past .. now-100 s, now+100 s .. far future, MAX-1, MAX} x grace in {0, 50 s, 10^6 s, MAX}: loaded iff now <= expiry, deleted iff expiry + grace (saturating) <= now, export_with_expiration keeps content and sets expiry. non-trivial = non-zero key with file info kept but no lookup tables, or a directory with >= 2 keys answering >= 1 positive query, or an expiry case (past expiry) that is not loaded; distinct by fingerprint of the generated case Stream 'wide': one shard with a xorb of 1 .. 70 000 chunks (count biased to 2^16 and its neighbours and to 2^k-1 / 2^k / 2^k+1) plus a small xorb, 1-2 exports (any key, any flags), queries of 1-4 hashes starting at chunks with the same bias: the original's answers are truthful and every export answers exactly like the original; non-trivial there = a positive answer on a xorb of more than 255 chunks.";
 
 pub const ASSUMPTIONS: &[&str] = &[
     "expiry cases keep a margin of 100 s around the wall clock, the only clock-dependent part of the check",
@@ -551,8 +551,124 @@ fn expiry_oracle(c: &ExpiryCase, info: &mut Case) -> Result<(), String> {
     Ok(())
 }
 
+// ---- stream 'wide': a xorb with chunk counts around 2^16 (the width of the manager's chunk offsets) ----
+
+#[derive(Clone, Debug, Serialize, Deserialize)]
+pub struct WideCase {
+    pub seed: u64,
+    pub n_chunks: u32,
+    /// (key index 0..3 where 0 = zero key, include flags)
+    pub exports: Vec<(u8, bool, bool, bool)>,
+    /// (first chunk, number of hashes)
+    pub queries: Vec<(u32, u8)>,
+}
+
+fn wide_case() -> impl Strategy<Value = WideCase> {
+    (
+        any::<u64>(),
+        prop_oneof![3 => 65_530u32..65_545, 2 => crate::gen::edge_u32(70_000).prop_map(|n| n.max(1))],
+        proptest::collection::vec((0u8..4, any::<bool>(), any::<bool>(), any::<bool>()), 1..3),
+        proptest::collection::vec((prop_oneof![2 => 65_530u32..65_540, 2 => crate::gen::edge_u32(70_000)], 1u8..5), 6..20),
+    )
+        .prop_map(|(seed, n_chunks, exports, queries)| WideCase { seed, n_chunks, exports, queries })
+}
+
+fn wide_oracle(c: &WideCase, info: &mut Case) -> Result<(), String> {
+    use mdb_shard::cas_structs::{CASChunkSequenceEntry, CASChunkSequenceHeader};
+    let mut model = ShardModel::default();
+    let mut wide_hashes: Vec<merklehash::MerkleHash> = Vec::with_capacity(c.n_chunks as usize);
+    let mut wide_lens: Vec<u32> = Vec::with_capacity(c.n_chunks as usize);
+    for (xi, n) in [(0u64, c.n_chunks), (1u64, 5u32)] {
+        let mut xh = [0u8; 32];
+        Sm64(c.seed ^ 0x18_00 ^ xi).fill(&mut xh);
+        let mut chunks = Vec::with_capacity(n as usize);
+        let mut pos = 0u32;
+        for i in 0..n {
+            let mut h = [0u8; 32];
+            Sm64((c.seed ^ xi << 40).wrapping_add(i as u64).wrapping_mul(0x9E37_79B9_7F4A_7C15)).fill(&mut h);
+            h[8..12].copy_from_slice(&i.to_le_bytes());
+            h[12] = xi as u8;
+            let len = 1 + (h[0] as u32 % 100);
+            chunks.push(CASChunkSequenceEntry::new(mh(&h), len, pos));
+            if xi == 0 {
+                wide_hashes.push(mh(&h));
+                wide_lens.push(len);
+            }
+            pos += len;
+        }
+        let meta = CASChunkSequenceHeader::new(mh(&xh), n, pos);
+        model.xorbs.insert(crate::gen::shard::key(&xh), MDBCASInfo { metadata: meta, chunks });
+    }
+    let rt = tokio::runtime::Builder::new_current_thread().enable_all().build().unwrap();
+    let tmp = tempfile::tempdir().map_err(|e| e.to_string())?;
+    let od = tmp.path().join("orig");
+    std::fs::create_dir_all(&od).unwrap();
+    let p = model.to_in_memory().write_to_directory(&od).map_err(|e| format!("[sig:c18-write] {e}"))?;
+    let sf = MDBShardFile::load_from_file(&p).map_err(|e| format!("[sig:c18-load] {e}"))?;
+    let mut dirs = Vec::new();
+    for (i, (kj, fi, cl, kl)) in c.exports.iter().enumerate() {
+        let ed = tmp.path().join(format!("export{i}"));
+        std::fs::create_dir_all(&ed).unwrap();
+        let key = if *kj == 0 { [0u8; 32] } else { key_of(*kj) };
+        sf.export_as_keyed_shard(&ed, mh(&key), Duration::from_secs(3600), *fi, *cl, *kl).map_err(|e| format!("[sig:c18-export-err] export of a shard with a xorb of {} chunks (key {kj}, files {fi}, cas table {cl}, chunk table {kl}): {e}", c.n_chunks))?;
+        dirs.push((format!("export (key {kj}, files {fi}, cas table {cl}, chunk table {kl})"), ed));
+    }
+    let mut positives = 0;
+    let mut at_edge = 0;
+    let r: Result<(), String> = rt.block_on(async {
+        let m0 = ShardFileManager::new_in_session_directory(&od).await.map_err(|e| format!("[sig:c18-mgr] {e}"))?;
+        let mut ms = Vec::new();
+        for (name, ed) in &dirs {
+            ms.push((name, ShardFileManager::new_in_session_directory(ed).await.map_err(|e| format!("[sig:c18-mgr] {name}: {e}"))?));
+        }
+        for (s, len) in &c.queries {
+            let s = (*s).min(c.n_chunks - 1) as usize;
+            let e = (s + *len as usize).min(c.n_chunks as usize);
+            let hashes = &wide_hashes[s..e];
+            let a0 = m0.chunk_hash_dedup_query(hashes).await.map_err(|e| format!("[sig:c18-query-err] original: {e}"))?;
+            let view = |a: &Option<(usize, mdb_shard::file_structs::FileDataSequenceEntry)>| a.as_ref().map(|x| (x.0, x.1.chunk_index_start, x.1.chunk_index_end, x.1.unpacked_segment_bytes));
+            if let Some((k, fse)) = &a0 {
+                positives += 1;
+                let bytes: u32 = wide_lens[s..s + *k].iter().sum();
+                if *k == 0 || *k > hashes.len() || fse.chunk_index_start as usize != s || fse.chunk_index_end as usize != s + *k || fse.unpacked_segment_bytes != bytes {
+                    return Err(format!("[sig:c18-untruthful] the manager over the original shard answers {:?} to a query for chunks [{s},{e}) of a xorb of {} chunks", view(&a0), c.n_chunks));
+                }
+            }
+            if (65_534..=65_536).contains(&s) {
+                at_edge += 1;
+            }
+            for (name, m1) in &ms {
+                let a1 = m1.chunk_hash_dedup_query(hashes).await.map_err(|e| format!("[sig:c18-query-err] {name}: {e}"))?;
+                if view(&a1) != view(&a0) || a1.as_ref().map(|x| x.1.cas_hash) != a0.as_ref().map(|x| x.1.cas_hash) {
+                    return Err(format!(
+                        "[sig:c18-dedup-differs] the manager over the {name} answers {:?} where the manager over the original shard answers {:?} (query for chunks [{s},{e}) of a xorb of {} chunks)",
+                        view(&a1),
+                        view(&a0),
+                        c.n_chunks
+                    ));
+                }
+            }
+        }
+        Ok(())
+    });
+    r?;
+    if c.n_chunks > 65_535 {
+        info.label("xorb-of-more-than-65535-chunks");
+    }
+    if at_edge > 0 {
+        info.label("query-starting-at-chunk-65534..65536");
+    }
+    if c.exports.iter().any(|e| !e.3) {
+        info.label("wide-export-without-chunk-table");
+    }
+    info.nontrivial_if(positives > 0 && c.n_chunks > 255);
+    info.note = Some(json!({"chunks": c.n_chunks, "exports": c.exports.len(), "queries": c.queries.len(), "positives": positives}));
+    Ok(())
+}
+
 pub fn run(ctx: &Ctx) {
     ctx.explore("export", ctx.tier.pick(15_000, 500_000), 16, export_case, export_oracle);
     ctx.explore("manager", ctx.tier.pick(6_000, 200_000), 16, mgr_case, mgr_oracle);
     ctx.explore("expiry", ctx.tier.pick(9_000, 300_000), 16, expiry_case, expiry_oracle);
+    ctx.explore("wide", ctx.tier.pick(400, 12_000), 16, wide_case, wide_oracle);
 }
